@@ -339,7 +339,11 @@ def chain_specs():
     five = {"dims": four["dims"] + [{"fam": "LN", "cond": 3, "params": dict(pw)}]}
     three = {"dims": [{"fam": "W", "cond": None, "params": dict(w)}, {"fam": "LN", "cond": 0, "params": dict(pw)},
                       {"fam": "LN", "cond": 1, "params": dict(pw)}]}
-    return [four, five, three]
+    # a conditional variable all of whose parameters are fixed values (no dependence function at all): still one draw per row
+    allfixed = {"dims": [{"fam": "W", "cond": None, "params": dict(w)},
+                         {"fam": "LN", "cond": 0, "params": {"mu": ["fix", 0.3], "sigma": ["fix", 0.2]}},
+                         {"fam": "W", "cond": 1, "params": {"alpha": ["fix", 1.5], "beta": ["fix", 2.0], "gamma": ["fix", 0.0]}}]}
+    return [four, five, three, allfixed]
 
 
 def edge_specs():
